@@ -56,6 +56,7 @@ def plan(tier, seed):
         units.append({'kind': 'hostile13-server', 'variants': HOSTILE13_SERVER, 'rep': rep, 'weight': 4})
         units.append({'kind': 'hostile-tlcp', 'proto': 'tlcp', 'variants': HOSTILE_TLCP, 'rep': rep, 'weight': 4})
         units.append({'kind': 'hostile-tlcp', 'proto': 'tls12', 'variants': HOSTILE_TLCP, 'rep': rep, 'weight': 4})
+        units.append({'kind': 'ske-coverage', 'count': 6 if tier == 'quick' else 20, 'rep': rep, 'weight': 2})
     return units
 
 
@@ -765,5 +766,71 @@ def u_hostile_tlcp(ctx, u):
     cli_ctx.free()
 
 
+def u_ske_coverage(ctx, u):
+    """What the TLS 1.2 server's proof of possession covers: the signature over (client_random, server_random, curve, ephemeral
+    point) made by tls_sign_server_ecdh_params must verify - under an independent SM2 verifier - over exactly those octets,
+    and tls_verify_server_ecdh_params must refuse it for any other random, curve or point (a man in the middle that keeps
+    the genuine signature and swaps the point would otherwise complete the handshake with its own key share)."""
+    from .. import sm2util as U
+    rng, lib, L = ctx.rng, ctx.lib, ctx.L
+    CURVE = 41
+    for rep in range(u['count']):
+        d = rng.randrange(1, R.N - 1)
+        key, r0 = U.key_from_private(ctx, d)
+        pubk, _ = U.key_from_public(ctx, R.pub(d))
+        cr, sr = rng.randbytes(32), rng.randbytes(32)
+        k = rng.randrange(1, R.N - 1)
+        pt = R.mul(k, R.G)
+
+        def point_buf(xy):
+            p = ctx.buf(L['sizeof_SM2_Z256_POINT'], fill=0)
+            b = ctx.inbuf(R.pt_bytes(xy))
+            assert lib.sm2_z256_point_from_bytes(p, b) == 1
+            b.free()
+            return p
+        pb = point_buf(pt)
+        crb, srb = ctx.inbuf(cr), ctx.inbuf(sr)
+        sig = ctx.buf(80, fill=0)
+        sl = ctypes.c_size_t(0)
+        ctx.begin(['ske-coverage', 'sign', rep])
+        r = lib.tls_sign_server_ecdh_params(key, crb, srb, CURVE, pb, sig, ctypes.byref(sl))
+        if not ctx.check(r == 1 and 0 < sl.value <= 72, 'control:server-ecdh-params-sign-failed', ret=r):
+            continue
+        sg = sig.raw(sl.value)
+        sgb = ctx.inbuf(sg)
+        ctx.check(lib.tls_verify_server_ecdh_params(pubk, crb, srb, CURVE, pb, sgb, len(sg)) == 1, 'control:own-server-ecdh-params-signature-refused')
+        # independent verification over the octets the standard prescribes
+        params = bytes([3]) + CURVE.to_bytes(2, 'big') + bytes([65]) + R.pt_uncompressed(pt)
+        rs = R.sig_parse_strict(sg)
+        e = R.sm3(R.compute_z(R.pub(d), R.DEFAULT_ID) + cr + sr + params)
+        ctx.check(rs is not None and R.verify_rs(R.pub(d), e, rs[0], rs[1]), 'auth-bypass:server-key-exchange-signature-does-not-cover-the-parameters:tls12',
+                  note='the signature made by the library does not verify over client_random || server_random || ServerECDHParams')
+        # any other parameter must be refused
+        others = []
+        for j in range(3):
+            others.append(('other-point', cr, sr, CURVE, R.mul(rng.randrange(1, R.N - 1), R.G)))
+        others.append(('negated-point', cr, sr, CURVE, (pt[0], R.P - pt[1])))
+        for j in range(3):
+            b_ = bytearray(cr)
+            b_[rng.randrange(32)] ^= 1 << rng.randrange(8)
+            others.append(('other-client-random', bytes(b_), sr, CURVE, pt))
+            b_ = bytearray(sr)
+            b_[rng.randrange(32)] ^= 1 << rng.randrange(8)
+            others.append(('other-server-random', cr, bytes(b_), CURVE, pt))
+        others.append(('other-curve', cr, sr, 23, pt))
+        for name, c2, s2, cv, p2 in others:
+            cb2, sb2, pb2 = ctx.inbuf(c2), ctx.inbuf(s2), point_buf(p2)
+            ctx.begin(['ske-coverage', name, rep])
+            r = lib.tls_verify_server_ecdh_params(pubk, cb2, sb2, cv, pb2, sgb, len(sg))
+            ctx.check(r != 1, 'auth-bypass:server-key-exchange-signature-accepted-for-%s:tls12' % name, ret=r)
+            ctx.nontrivial('ske-coverage', name, rep, c2[:4], s2[:4], p2[0] & 0xffff)
+            ctx.stat('defect_cases')
+            for b in (cb2, sb2, pb2):
+                b.free()
+        for b in (key, pubk, pb, crb, srb, sig, sgb):
+            b.free()
+    ctx.sample({'kind': 'ske-coverage', 'count': u['count']})
+
+
 def run_unit(ctx, u):
-    {'case': u_case, 'hostile13': u_hostile13, 'hostile13-server': u_hostile13_server, 'hostile-tlcp': u_hostile_tlcp}[u['kind']](ctx, u)
+    {'case': u_case, 'hostile13': u_hostile13, 'hostile13-server': u_hostile13_server, 'hostile-tlcp': u_hostile_tlcp, 'ske-coverage': u_ske_coverage}[u['kind']](ctx, u)
